@@ -300,10 +300,27 @@ Definition message_lines (W : nat) (lines : list string) : list string :=
    L = "<hex line>:<chunks of the line>:<chunks of the data part>:<chunks of the comment part>",
    chunks = hex,hex,... or "-"; "x" in place of <hex line> stands for the empty line.
    A chunk list that does not concatenate to the munged text is refused ("chunks:err"). *)
+(* linear-time splitting (Wire.split_on is quadratic in the length of a field; requests here are long) *)
+Fixpoint rev_onto (s acc : string) : string :=
+  match s with
+  | EmptyString => acc
+  | String a r => rev_onto r (String a acc)
+  end.
+Fixpoint fsplit_aux (c : ascii) (s : string) (cur : string) : list string :=
+  match s with
+  | EmptyString => [rev_onto cur ""]
+  | String a r =>
+      if Ascii.eqb a c then rev_onto cur "" :: fsplit_aux c r ""
+      else fsplit_aux c r (String a cur)
+  end.
+Definition fsplit (c : ascii) (s : string) : list string := fsplit_aux c s "".
+Definition fwords (s : string) : list string :=
+  filter (fun w => negb (String.eqb w "")) (fsplit " "%char s).
+
 Definition parse_chunks (s : string) : list string :=
-  if String.eqb s "-" then [] else map hex_decode (split_on ","%char s).
+  if String.eqb s "-" then [] else map hex_decode (fsplit ","%char s).
 Definition parse_src_line (s : string) : option src_line :=
-  match split_on ":"%char s with
+  match fsplit ":"%char s with
   | [t; a; b; c] =>
       let line := if String.eqb t "x" then "" else hex_decode t in
       let l := SrcLine line (parse_chunks a) (parse_chunks b) (parse_chunks c) in
@@ -323,11 +340,11 @@ Definition show_wres (r : wres) : string :=
   | WIndexError => "IndexError"
   end.
 Definition run_Wrap (req : string) : string :=
-  match words req with
+  match fwords req with
   | [w; f; c; ls] =>
       match parse_nat w, parse_nat c with
       | Some W, Some cont =>
-          match (if String.eqb ls "-" then Some [] else map_opt parse_src_line (split_on "/"%char ls)) with
+          match (if String.eqb ls "-" then Some [] else map_opt parse_src_line (fsplit "/"%char ls)) with
           | Some lines => show_wres (wrap_lines W cont (String.eqb f "1") lines)
           | None => "chunks:err"
           end
